@@ -10,11 +10,11 @@ import "fmt"
 type arrKind uint8
 
 const (
-	aBase arrKind = iota // declared SMT array constant
-	aZero                // all zero
-	aConst               // concrete bytes (zero beyond)
-	aStore               // store(a, i, v)
-	aCopy                // dst with window [doff, doff+n) replaced by src[soff...]
+	aBase  arrKind = iota // declared SMT array constant
+	aZero                 // all zero
+	aConst                // concrete bytes (zero beyond)
+	aStore                // store(a, i, v)
+	aCopy                 // dst with window [doff, doff+n) replaced by src[soff...]
 )
 
 type Arr struct {
